@@ -213,6 +213,14 @@ class Contract:
         if type(self).result_value is Contract.result_value:
             from .interp import InlineInstead
             raise InlineInstead()          # verified on its own, but no call-site abstraction: callers inline it
+        import enum as _enum
+        import types as _types
+        if bound and all(v is None or isinstance(v, (str, int, bool, _enum.Enum, _types.FunctionType))
+                         for v in bound.values()):
+            # every argument is a concrete value: interpreting the body gives the concrete result, which is more
+            # precise than the contract's relational postcondition
+            from .interp import InlineInstead
+            raise InlineInstead()
         a = Args(bound)
         for k, v in self.call_ghosts(I, a, frame, site).items():
             setattr(a, k, v)
